@@ -1074,7 +1074,10 @@ static Token *include_file(Token *tok, char *path, Token *filename_tok, int next
 // Read #line arguments
 static void read_line_marker(Token **rest, Token *tok) {
   Token *start = tok;
-  tok = preprocess(copy_line(rest, tok));
+  // The operands are macro-expanded on their own: a conditional that
+  // is open around the directive stays open.
+  tok = preprocess2(copy_line(rest, tok));
+  convert_pp_tokens(tok);
 
   if (tok->kind != TK_NUM || tok->ty->kind != TY_INT)
     error_tok(tok, "invalid line marker");
